@@ -37,11 +37,18 @@ type LVal struct {
 }
 
 type Val struct {
-	T   Term
-	LV  *LVal
-	Tup []Val
-	Fn  *ssa.Function // statically known function value (closure or func literal)
-	Clo *ssa.MakeClosure
+	T    Term
+	LV   *LVal
+	Tup  []Val
+	Fn   *ssa.Function // statically known function value (closure or func literal)
+	Clo  *ssa.MakeClosure
+	Alts []altFn // a function value that is one of several known closures, depending on the path taken
+}
+
+type altFn struct {
+	cond string
+	fn   *ssa.Function
+	clo  *ssa.MakeClosure
 }
 
 type loopInfo struct {
@@ -653,6 +660,8 @@ func (fr *Frame) phis(b *ssa.BasicBlock, preds []*ssa.BasicBlock, edges []string
 			break
 		}
 		term := ""
+		var alts []altFn
+		allFn := true
 		for i := len(preds) - 1; i >= 0; i-- {
 			// which operand corresponds to preds[i]?
 			var v ssa.Value
@@ -667,8 +676,24 @@ func (fr *Frame) phis(b *ssa.BasicBlock, preds []*ssa.BasicBlock, edges []string
 			} else {
 				term = ite(edges[i], t, term)
 			}
+			if val, ok := fr.vals[v]; ok && val.Fn != nil {
+				alts = append(alts, altFn{edges[i], val.Fn, val.Clo})
+			} else if ok && val.Alts != nil {
+				for _, a := range val.Alts {
+					alts = append(alts, altFn{and(edges[i], a.cond), a.fn, a.clo})
+				}
+			} else if fn, ok := v.(*ssa.Function); ok {
+				alts = append(alts, altFn{edges[i], fn, nil})
+			} else {
+				allFn = false
+			}
 		}
 		fr.setVal(phi, term)
+		if allFn && len(alts) > 0 {
+			val := fr.vals[phi]
+			val.Alts = alts
+			fr.vals[phi] = val
+		}
 	}
 }
 
@@ -698,6 +723,23 @@ func (fr *Frame) invEnv(h *ssa.BasicBlock, phiSub map[*ssa.Phi]ssa.Value, st *St
 		if strings.HasSuffix(name, "$0") && fr.top {
 			if t, ok := c.params[strings.TrimSuffix(name, "$0")]; ok {
 				return t, true
+			}
+		}
+		if name == "itkeys" || name == "itpos" {
+			// ghost key sequence / position of the map (or string) range driving this loop
+			for _, ins := range h.Instrs {
+				if nx, ok := ins.(*ssa.Next); ok {
+					if rng, ok := nx.Iter.(*ssa.Range); ok {
+						if name == "itpos" {
+							if p, ok := st.heap["it:"+fr.tag+rng.Name()]; ok {
+								return Term{p, SInt, tInt}, true
+							}
+						} else if seq, ok := fr.iterSeq[rng]; ok {
+							m := types.Unalias(rng.X.Type()).Underlying().(*types.Map)
+							return Term{seq, c.ss.SeqOf(c.ss.SortOf(m.Key())), types.NewSlice(m.Key())}, true
+						}
+					}
+				}
 			}
 		}
 		return fr.localAt(h, name, phiSub, st)
@@ -1349,6 +1391,11 @@ func (fr *Frame) unop(x *ssa.UnOp, st *State) {
 		if g, ok := x.X.(*ssa.Global); ok {
 			if k := c.eng.constGlobal(g); k != nil {
 				fr.vals[x] = Val{T: fr.constVal(k)}
+				return
+			}
+			if c.eng.nonNilGlobals[g] {
+				n := fr.setFresh(x)
+				c.emit(fmt.Sprintf("(assert (not (= %s 0)))", n))
 				return
 			}
 		}
